@@ -69,7 +69,9 @@ func cmdRun(args []string) {
 	work := fs.String("work", "/dev/shm", "directory for database roots")
 	timeout := fs.Duration("timeout", 60*time.Second, "per-test watchdog")
 	locks := fs.String("locktrace", "", "record the lock operations of every call into this ndjson file")
+	keep := fs.String("keep", "", "keep every database directory, its identifiers and its trace under this directory (golden corpus)")
 	fs.Parse(args)
+	KeepDir = *keep
 	if *locks != "" {
 		startLockTrace(*locks)
 		defer stopLockTrace()
